@@ -276,22 +276,27 @@ func runPath(cfg *RunConfig, solver *Solver, prefix []Decision, q *workQueue, st
 	if len(st.SamplePaths) < 3 && solver != nil {
 		// witness input for this path
 		s := ps.traceString()
+		var wit map[string]uint64
 		if res := ps.query(ctx.Bool(true)); res == Sat {
 			in, _ := ps.model()
 			ps.endQuery()
+			wit = map[string]uint64{}
 			var parts []string
 			for i, iv := range in {
-				if i >= 24 {
+				wit[iv.Name] = iv.Val
+				if i == 24 {
 					parts = append(parts, "...")
-					break
 				}
-				parts = append(parts, fmt.Sprintf("%s=%d", iv.Name, iv.Val))
+				if i < 24 {
+					parts = append(parts, fmt.Sprintf("%s=%d", iv.Name, iv.Val))
+				}
 			}
 			s = "decisions[" + clip(s, 300) + "] witness{" + strings.Join(parts, " ") + "}"
 		} else {
 			ps.endQuery()
 		}
 		st.SamplePaths = append(st.SamplePaths, s)
+		st.SampleWitness = append(st.SampleWitness, wit)
 	}
 	return
 }
